@@ -16,6 +16,9 @@ import (
 //
 //   rename-locals : every local variable, parameter, receiver and named result of the SDK packages gets a new name
 //   shift-lines   : a comment block is inserted at the top of every file (all line numbers move)
+//   invert-if     : `if c {A} else {B}` becomes `if !(c) {B} else {A}`
+//   hoist-init    : `if x := f(); c {…}` becomes `{ x := f(); if c {…} }`
+//   wrap-else     : `if c {…; return}; rest` becomes `if c {…; return} else {rest}`
 //   swap-operands : `a == b` / `a != b` comparisons are mirrored (b == a), `a < b` becomes `b > a`, etc.
 func refactorTree(dir, kind string) error {
 	normaliseCmp = false
@@ -97,6 +100,79 @@ func refactorTree(dir, kind string) error {
 					b.X, b.Y, b.Op = b.Y, b.X, op
 					changed = true
 					n++
+					return true
+				})
+			case "invert-if":
+				// if c { A } else { B }  →  if !(c) { B } else { A }   (else-if chains are left alone)
+				ast.Inspect(file, func(x ast.Node) bool {
+					is, ok := x.(*ast.IfStmt)
+					if !ok || is.Else == nil {
+						return true
+					}
+					eb, ok := is.Else.(*ast.BlockStmt)
+					if !ok {
+						return true
+					}
+					is.Cond = &ast.UnaryExpr{Op: token.NOT, X: &ast.ParenExpr{X: is.Cond}}
+					is.Body, is.Else = eb, is.Body
+					changed = true
+					n++
+					return true
+				})
+			case "hoist-init":
+				// if x := f(); c { … }  →  { x := f(); if c { … } }
+				hoist := func(list []ast.Stmt) {
+					for i, st := range list {
+						if is, ok := st.(*ast.IfStmt); ok && is.Init != nil {
+							init := is.Init
+							is.Init = nil
+							list[i] = &ast.BlockStmt{List: []ast.Stmt{init, is}}
+							changed = true
+							n++
+						}
+					}
+				}
+				ast.Inspect(file, func(x ast.Node) bool {
+					switch b := x.(type) {
+					case *ast.BlockStmt:
+						hoist(b.List)
+					case *ast.CaseClause:
+						hoist(b.Body)
+					case *ast.CommClause:
+						hoist(b.Body)
+					}
+					return true
+				})
+			case "wrap-else":
+				// if c { …; return }; rest…   →   if c { …; return } else { rest… }
+				ast.Inspect(file, func(x ast.Node) bool {
+					b, ok := x.(*ast.BlockStmt)
+					if !ok {
+						return true
+					}
+					for i, st := range b.List {
+						is, ok := st.(*ast.IfStmt)
+						if !ok || is.Else != nil || len(is.Body.List) == 0 || i == len(b.List)-1 {
+							continue
+						}
+						if _, isRet := is.Body.List[len(is.Body.List)-1].(*ast.ReturnStmt); !isRet {
+							continue
+						}
+						hasLabel := false
+						for _, r := range b.List[i+1:] {
+							if _, ok := r.(*ast.LabeledStmt); ok {
+								hasLabel = true
+							}
+						}
+						if hasLabel {
+							continue
+						}
+						is.Else = &ast.BlockStmt{List: append([]ast.Stmt(nil), b.List[i+1:]...)}
+						b.List = b.List[:i+1]
+						changed = true
+						n++
+						break
+					}
 					return true
 				})
 			case "shift-lines":
